@@ -31,6 +31,8 @@ package hydrex
 //@   requires[items] forall k in keys(items): items[k] != nil
 //@   requires[store] h.hydraidegoInterface != nil
 //@   modifies *
+//@   before Hydraidego.CatalogReadMany [reads_every_stored_record_of_the_domain] arg2 == lastret("hydrex.createCoreDataName") && arg3 != nil && arg3.From == 0 && arg3.Limit == 0
+//@   ensures[stored_state_is_always_read_and_diffed] calls("Hydraidego.CatalogReadMany") == old(calls("Hydraidego.CatalogReadMany")) + 1 && calls("Hydraidego.CatalogSaveMany") == old(calls("Hydraidego.CatalogSaveMany")) + 1
 //@   loop 0 invariant[one_index_request_per_deleted_key] len(deleteManyFromManyReq) == len(itemsForDelete)
 //@   loop 0 iteration[a_key_the_domain_no_longer_has_is_deleted_with_its_index_entry] !has(items, key) ==> len(itemsForDelete) == old(len(itemsForDelete)) + 1 && itemsForDelete[len(itemsForDelete)-1] == key && len(deleteManyFromManyReq) == old(len(deleteManyFromManyReq)) + 1 && len(deleteManyFromManyReq[len(deleteManyFromManyReq)-1].Keys) == 1 && deleteManyFromManyReq[len(deleteManyFromManyReq)-1].Keys[0] == domain
 //@   loop 0 iteration[a_key_the_domain_still_has_is_kept] has(items, key) ==> len(itemsForDelete) == old(len(itemsForDelete)) && len(deleteManyFromManyReq) == old(len(deleteManyFromManyReq))
@@ -56,6 +58,7 @@ package hydrex
 //@   property C27
 //@   requires[store] h.hydraidegoInterface != nil
 //@   modifies *
+//@   before Hydraidego.CatalogReadMany [reads_every_stored_record_of_the_domain] arg2 == lastret("hydrex.createCoreDataName") && arg3 != nil && arg3.From == 0 && arg3.Limit == 0
 //@   before Hydraidego.Destroy [destroys_the_domain_core] arg2 == lastret("hydrex.createCoreDataName")
 //@   before Hydraidego.Destroy [core_name_is_for_this_index_and_domain] calledwith("hydrex.createCoreDataName", 1, indexName) && calledwith("hydrex.createCoreDataName", 2, domain)
 //@   before Hydraidego.CatalogDeleteManyFromMany [sends_the_queued_index_requests] sliceid(arg2) == sliceid(deleteManyFromManyReq) && len(arg2) == len(deleteManyFromManyReq)
